@@ -276,11 +276,68 @@ def rule_R3(ctx, f):
            "a variable label equal to a const label name must be rejected: the raw variable name must be looked up among the raw const names on every iteration", site=site)
 
 
+def _whole_desc_le_check(ctx, rid, f, b):
+    """`check_bucket_label(&desc)?` once in HistogramCore::new, with check_bucket_label searching all label names of the descriptor it is given
+    (`desc.const_label_pairs` names and `desc.variable_labels`) for BUCKET_LABEL.  Records the R4 obligations and returns True when the code has this form."""
+    from pvrules import seqeval
+    c = f.body("prometheus::histogram::check_bucket_label")
+    cs = b.calls_to("check_bucket_label")
+    if c is None or len(cs) != 1 or "Desc" not in (c.local_ty(1) or ""):
+        return False
+    ctx.saw(b)
+    ctx.saw(c)
+    dcalls = b.calls_to(["describe", "Describer::describe"])
+    arg = peel(seqeval._unwrap_payload(cs[0].args[0], None, b))
+    from_describe = len(dcalls) >= 1 and any(arg == d_.result_term() for d_ in dcalls)
+    cont = try_continue_block(b, cs[0])
+    _, okb = result_assign_blocks(b)
+    ok_new = from_describe and cont is not None and all(b.dominates(cont, x) for x in okb)
+    for key in ("variable-labels", "const-labels"):
+        ctx.ob(rid, "HistogramCore::new|%s|validated" % key, ok_new,
+               "the descriptor built from the options must pass check_bucket_label with `?` before the histogram can be created (whole-descriptor form)", site=cs[0].span)
+    ok = False
+    site = c.raw["span"]["at"]
+    for s_ in c.calls_to(["Iterator::any", "Iterator::find", "Iterator::position"]):
+        a = s_.args[1]
+        cl = f.closure(a[2]) if (isinstance(a, tuple) and a and a[0] == "agg" and a[1] == "closure") else None
+        seq = seqeval.iter_seq(c, s_.args[0])
+        if cl is None or seq is None:
+            continue
+        site = s_.span
+        covers_c = any(sg[0] == "each" and peel(sg[1]) == ("field", ("deref", P(1)), "const_label_pairs") and [st_[1] for st_ in sg[2] if st_[0] == "get"] in (["name"], ["get_name"]) and len(sg[2]) == 1 for sg in seq)
+        covers_v = any(sg[0] == "each" and peel(sg[1]) == ("field", ("deref", P(1)), "variable_labels") and sg[2] == () for sg in seq)
+        eqs = cl.calls_to(["PartialEq::eq", "str::eq"])
+        r = peel(cl.term_local(0), transparent=[])
+        if len(eqs) != 1 or r != eqs[0].result_term() or effect_calls(cl, PURE + ["PartialEq::eq"]):
+            continue
+        sides = [peel(x) for x in eqs[0].args]
+        has_elem = any(x in (("param", 2), ("deref", ("param", 2))) for x in sides)
+        has_const = any(isinstance(x, tuple) and x and x[0] in ("const", "constdef", "other") and ("BUCKET_LABEL" in str(x) or '"le"' in str(x)) for x in sides)
+        be = c.branch_on_call(s_) if s_.matches("Iterator::any") else None
+        hit = None
+        if be and be[0] == s_.result_term():
+            hit = be[1]
+        elif not s_.matches("Iterator::any"):
+            for bi in c.reach(s_.bb):
+                si = c.switch_info(bi)
+                if si and si[0][0] == "discr" and peel(si[0][1]) == s_.result_term():
+                    hit = ([tg for v, tg in si[1] if v == 1] or [None])[0]
+                    break
+        ok = covers_c and covers_v and has_elem and has_const and hit is not None and rejecting(c, hit) and c.all_paths_pass(0, [s_.bb])
+        break
+    ctx.ob(rid, "check_bucket_label|rejects-equal", ok, "check_bucket_label must return Err exactly when a label name of the descriptor (const or variable) equals the reserved name", site=site)
+    return True
+
+
 def rule_R4(ctx, f):
     rid = "R4"
     ctx.rule(rid, "reserved `le`: in HistogramCore::new every variable label and every const pair name flows into check_bucket_label with `?`; "
                   "check_bucket_label compares with BUCKET_LABEL == \"le\" and returns Err on equality")
     b = ctx.anchor(rid, "HistogramCore::new", f.body("prometheus::histogram::HistogramCore::new"))
+    if b and _whole_desc_le_check(ctx, rid, f, b):
+        k = f.consts.get("prometheus::histogram::BUCKET_LABEL")
+        ctx.ob(rid, "BUCKET_LABEL", k is not None and k.get("val") == '"le"', "the reserved label constant BUCKET_LABEL must exist and be \"le\" (found %s)" % (k or {}).get("val"))
+        return
     if b:
         ctx.saw(b)
         def is_desc_field(name):
